@@ -1034,7 +1034,7 @@ func (r *resolver) findGrouping(y *Uses) (*Grouping, error) {
 		var p Definition
 		p = y
 		for p != nil {
-			if ptd, ok := p.(HasGroupings); ok {
+			if ptd, ok := p.(interface{ Groupings() map[string]*Grouping }); ok {
 				if found = ptd.Groupings()[ident]; found != nil {
 					return found, nil
 				}
